@@ -234,6 +234,86 @@ def translate_escape(tree: ast.Module) -> str:
     return 'Definition markupsafe_escape (s : str) : str :=\n  %s.' % e
 
 
+# ---------------------------------------------------------------------------------------------------------
+# filter_display_type: an isinstance chain over pydsdl classes, each branch building a str with markup.
+# Model input `dnode` (Gen/HtmlBase.v) has one constructor per class of the chain; the translator checks that the
+# chain tests exactly these classes, that a subclass is tested before its base class (PaddingField before Field)
+# and that each branch reads only what its constructor carries.
+# ---------------------------------------------------------------------------------------------------------
+DT_CLASSES = [  # class, constructor, pattern, {python sub-expression source -> (coq, type)}
+    ('FixedLengthArrayType', 'NFixed e cap', {'REC(instance.element_type)': ('(filter_display_type e)', T_STR), 'instance.capacity': ('cap', T_INT)}),
+    ('VariableLengthArrayType', 'NVar e cap', {'REC(instance.element_type)': ('(filter_display_type e)', T_STR), 'instance.capacity': ('cap', T_INT)}),
+    ('PaddingField', 'NPad s', {'instance': ('s', T_STR), 'str(instance)': ('s', T_STR)}),
+    ('Field', 'NField d nm', {'REC(instance.data_type)': ('(filter_display_type d)', T_STR), 'instance.name': ('nm', T_STR)}),
+    ('Constant', 'NConst d nm val', {'REC(instance.data_type)': ('(filter_display_type d)', T_STR), 'instance.name': ('nm', T_STR),
+                                     'instance.value': ('val', T_STR)}),
+    ('PrimitiveType', 'NPrim saturated s', {'instance.cast_mode == instance.cast_mode.SATURATED': ('saturated', T_BOOL),
+                                            'str(instance).split()[-1]': ('(last_word s)', T_STR), 'str(instance)': ('s', T_STR),
+                                            'instance': ('s', T_STR)}),
+]
+DT_SUBCLASS = [('PaddingField', 'Field')]
+
+
+class _Subst(ast.NodeTransformer):
+    """replaces the recognised reads of `instance` by fresh names bound in the branch environment"""
+
+    def __init__(self, table: dict, fname: str):
+        self.table, self.fname, self.used = table, fname, {}
+
+    def generic_visit(self, node):
+        if isinstance(node, ast.expr):
+            src = ast.unparse(node)
+            if isinstance(node, ast.Call) and isinstance(node.func, ast.Name) and node.func.id == self.fname and len(node.args) == 1:
+                src = 'REC(%s)' % ast.unparse(node.args[0])
+            if src in self.table:
+                nm = '_dt%d' % len(self.used) if src not in self.used else self.used[src]
+                self.used[src] = nm
+                return ast.copy_location(ast.Name(id=nm, ctx=ast.Load()), node)
+        return super().generic_visit(node)
+
+
+def translate_display_type(tree: ast.Module) -> str:
+    fn = pyfun_tr.find_function(tree, None, 'filter_display_type')
+    body = [s for s in fn.body if not (isinstance(s, ast.Expr) and isinstance(s.value, ast.Constant))]
+    if len(body) != 1 or not isinstance(body[0], ast.If) or [a.arg for a in fn.args.args] != ['instance']:
+        raise Unsupported('filter_display_type is not a single if/elif chain over `instance`')
+    branches, node = [], body[0]
+    while True:
+        t = node.test
+        if not (isinstance(t, ast.Call) and isinstance(t.func, ast.Name) and t.func.id == 'isinstance' and len(t.args) == 2
+                and ast.unparse(t.args[0]) == 'instance' and isinstance(t.args[1], ast.Attribute) and ast.unparse(t.args[1].value) == 'pydsdl'):
+            raise Unsupported('filter_display_type: test %s is not isinstance(instance, pydsdl.X)' % ast.unparse(t))
+        branches.append((t.args[1].attr, node.body))
+        if len(node.orelse) == 1 and isinstance(node.orelse[0], ast.If):
+            node = node.orelse[0]
+        else:
+            orelse = node.orelse
+            break
+    order = [c for c, _ in branches]
+    if sorted(order) != sorted(c for c, _, _ in DT_CLASSES) or len(set(order)) != len(order):
+        raise Unsupported('filter_display_type distinguishes %s, the model %s' % (order, [c for c, _, _ in DT_CLASSES]))
+    for sub, base in DT_SUBCLASS:
+        if order.index(sub) > order.index(base):
+            raise Unsupported('filter_display_type tests %s after its base class %s' % (sub, base))
+    if len(orelse) != 1 or not isinstance(orelse[0], ast.Return) or ast.unparse(orelse[0].value) != 'str(instance)':
+        raise Unsupported('filter_display_type: else branch is not `return str(instance)`')
+    spec = pyfun_tr.FunSpec(cls=None, name='filter_display_type', coq_name='filter_display_type', params={}, ret=T_STR)
+    arms = []
+    for cname, stmts in branches:
+        _, pat, table = next(x for x in DT_CLASSES if x[0] == cname)
+        sub = _Subst(table, 'filter_display_type')
+        stmts2 = [sub.visit(ast.parse(ast.unparse(st)).body[0]) for st in stmts]
+        for st in stmts2:
+            for n in ast.walk(st):
+                if isinstance(n, ast.Name) and n.id in ('instance', 'filter_display_type'):
+                    raise Unsupported('filter_display_type: branch %s reads %s in a way the model does not carry' % (cname, ast.unparse(st)))
+        env = {nm: table[src] for src, nm in sub.used.items()}
+        tr = HtmlTr(pyfun_tr.Ctx(spec, None))
+        arms.append('  | %s =>\n      %s' % (pat, tr.block(stmts2, env)))
+    arms.append('  | NOther s => s')
+    return 'Fixpoint filter_display_type (instance : dnode) : str :=\n  match instance with\n%s\n  end.' % '\n'.join(arms)
+
+
 def autoescape_data(envtree: ast.Module, utiltree: ast.Module) -> str:
     call = None
     for n in ast.walk(envtree):
@@ -354,6 +434,7 @@ def gen_html() -> typing.Tuple[bool, str]:
         parts.append(translate_function(html_mod, 'filter_make_unique', 'filter_make_unique', {'base_token': T_STR}, T_UNGRET,
                                         ung=True, skip_params=('_',)))
         parts.append(translate_namespace_doc(html_mod))
+        parts.append(translate_display_type(html_mod))
         parts.append(autoescape_data(envt, utl))
         parts.append('Definition links_up_prefix : bool := %s.  (* type_info.j2 prefixes type links with the page depth *)'
                      % ('true' if links_up_prefix(os.path.join(gen.REPO, 'src/nunavut/lang/html/templates')) else 'false'))
@@ -814,8 +895,11 @@ class TemplateScan:
                     raise Unsupported('%s:%d: asset %s included outside <script>/<style>' % (self.rel, line, name))
                 with open(os.path.join(self.root, name), encoding='utf-8', errors='replace') as f:
                     asset = f.read()
-                if re.search(r'</%s' % self.raw, asset, re.I) or '{{' in asset and False:
+                if re.search(r'</%s' % self.raw, asset, re.I):
                     raise Unsupported('%s:%d: asset %s contains </%s' % (self.rel, line, name, self.raw))
+                if re.search(r'\{\{|\{%|\{#', asset):
+                    # {% include %} renders the asset as a Jinja template: it would have output sites / statements of its own
+                    raise Unsupported('%s:%d: asset %s contains Jinja syntax ({{ {%% or {#): it is a template, not raw text' % (self.rel, line, name))
                 self.emit(('text',))
             return
         if kw == 'set':
@@ -1081,6 +1165,79 @@ class Classifier:
         return self.has(sc, macro, e, lambda n: n[0] == 'filter' and n[1] == 'safe')
 
 
+def _jexpr(e) -> str:
+    """parsed Jinja expression -> Coq term of type jexpr (Gen/HtmlSkelBase.v); anything outside the modelled shapes is JOther"""
+    k = e[0]
+    if k == 'const':
+        return 'JStr %s' % _s(e[1]) if isinstance(e[1], str) else 'JNum'
+    if k == 'name':
+        return 'JName %s' % _s(e[1])
+    if k == 'cond':
+        return 'JCond (%s) (%s)' % (_jexpr(e[2]), _jexpr(e[3]) if e[3] is not None else 'JStr []')
+    if k == 'bool':
+        return 'JOr (%s) (%s)' % (_jexpr(e[2]), _jexpr(e[3]))
+    if k in ('not', 'cmp', 'test'):
+        return 'JBoolean'
+    if k == 'neg':
+        return 'JArith (%s) JNum' % _jexpr(e[1])
+    if k == 'arith':
+        a, b = _jexpr(e[2]), _jexpr(e[3])
+        if e[1] in ('~', '+'):
+            return 'JCat (%s) (%s)' % (a, b)
+        if e[1] == '*':
+            return 'JRepeat (%s) (%s)' % (a, b)
+        return 'JArith (%s) (%s)' % (a, b)
+    if k == 'attr':
+        return 'JAttr (%s) %s' % (_jexpr(e[1]), _s(e[2]))
+    if k == 'item':
+        if e[1][0] == 'attr' and e[1][2] == 'version' and e[2][0] == 'const' and not isinstance(e[2][1], str):
+            return 'JItemVersion (%s)' % _jexpr(e[1][1])
+        return 'JOther'
+    if k == 'call':
+        f = e[1]
+        if f[0] == 'attr' and f[2] == 'replace' and len(e[2]) == 2 and not e[3] and all(a[0] == 'const' and isinstance(a[1], str) for a in e[2]) \
+                and len(e[2][0][1]) == 1:
+            return 'JReplace (%s) %d %s' % (_jexpr(f[1]), ord(e[2][0][1]), _s(e[2][1][1]))
+        if f[0] == 'attr' and f[2] in ('count', 'index', 'find'):
+            return 'JCount (%s)' % _jexpr(f[1])
+        return 'JOther'
+    if k == 'filter':
+        if e[3] or e[4]:
+            return 'JOther'
+        return 'JFilter %s (%s)' % (_s(e[1]), _jexpr(e[2]))
+    return 'JOther'
+
+
+def _scope(rel: str, macro) -> str:
+    return '%s:%s' % (rel, macro) if macro else rel
+
+
+def bindings_and_certificate(rels, scans, cl: Classifier):
+    """every way a template variable gets a value: {% set %}, parameter defaults, arguments at every call site;
+    plus the class the Python classifier claims for each variable (a certificate the Coq side checks, not trusts)"""
+    binds, cert = [], {}
+    for rel in rels:
+        sc = scans[rel]
+        for name, lst in sc.sets.items():
+            for macro, rhs in lst:
+                binds.append((_scope(rel, macro), name, _scope(rel, macro), rhs))
+                cert[(_scope(rel, macro), name)] = cl.name_cls(sc, macro, name)
+        for mname, fr in sc.macros.items():
+            key = '%s:%s' % (rel, mname)
+            names = [p for p, _ in fr['params']]
+            for idx, (pn, dflt) in enumerate(fr['params']):
+                if dflt is not None:
+                    binds.append((key, pn, key, dflt))
+                for csc, cmacro, pos, kw in cl.calls.get(key, []):
+                    arg = pos[idx] if idx < len(pos) else kw.get(pn)
+                    if arg is not None:
+                        binds.append((key, pn, _scope(csc.rel, cmacro), arg))
+                    elif dflt is None:
+                        binds.append((key, pn, key, ('other',)))
+                cert[(key, pn)] = cl.name_cls(sc, mname, pn)
+    return binds, cert
+
+
 def _coq_skl(nodes: list, sites: list, sc: TemplateScan, cl: Classifier) -> str:
     out = 'SNil'
     for nd in reversed(nodes):
@@ -1187,14 +1344,20 @@ def gen_htmlskel() -> typing.Tuple[bool, str]:
                 if tgt not in keys:
                     raise Unsupported('%s calls/includes %s which is not a scanned template or macro' % (k, tgt))
         parts = ['Definition html_sites : list site := [\n  %s].' % ';\n  '.join(
-            '{| st_template := %s; st_line := %d; st_ctx := %d; st_cls := %d; st_safe_filter := %s |} (* %d %s:%d %s : %s *)'
-            % (_s(o['rel']), o['line'], o['ctx'], CLS[o['cls']], 'true' if o['safe'] else 'false', o['index'], o['rel'], o['line'], o['cls'],
+            '{| st_template := %s; st_line := %d; st_ctx := %d; st_cls := %d; st_safe_filter := %s;\n     st_scope := %s; st_expr := %s |} (* %d %s:%d %s : %s *)'
+            % (_s(o['rel']), o['line'], o['ctx'], CLS[o['cls']], 'true' if o['safe'] else 'false', _s(_scope(o['rel'], o['macro'])), _jexpr(o['expr']),
+               o['index'], o['rel'], o['line'], o['cls'],
                o['src'].replace('*)', '* )').replace('(*', '( *').replace('"', "''"))
             for o in table)]
         parts.append('Definition html_skeletons : list (str * skl) := [\n  %s].' % ';\n  '.join(
             '(%s (* %s *),\n   %s)' % (_s(k), k, body) for k, body in entries))
         parts.append('Definition html_entry_templates : list str := [%s].' % '; '.join(
             _s(r) for r in rels if r[:1].isupper()))
+        binds, cert = bindings_and_certificate(rels, scans, cl)
+        parts.append('Definition html_bindings : list (str * str * str * jexpr) := [\n  %s].' % ';\n  '.join(
+            '(%s, %s, %s, %s) (* %s.%s <- [%s] *)' % (_s(a), _s(x), _s(b), _jexpr(rhs), a, x, b) for a, x, b, rhs in binds))
+        parts.append('Definition html_var_cls : list (str * str * N) := [\n  %s].' % ';\n  '.join(
+            '(%s, %s, %d) (* %s.%s : %s *)' % (_s(a), _s(x), CLS[c], a, x, c) for (a, x), c in sorted(cert.items())))
         # inlining structure: every macro call / include with the loops and conditions that guard it
         parts.append('Definition html_call_guards : list (str * str * list (N * str)) := [\n  %s].' % ';\n  '.join(
             '(%s, %s, [%s]) (* %s -> %s under %s *)' % (_s(a), _s(b), '; '.join('(%d, %s)' % (k, _s(t)) for k, t in g), a, b,
